@@ -23,7 +23,7 @@ import (
 )
 
 // extraErrKinds are further load-error kinds (kind >= 2): errors that wrappers are
-// tempted to special-case. Bare io.EOF is deliberately not among them.
+// tempted to special-case, the bare io.EOF (a truncated block file) among them.
 var extraErrKinds = []error{
 	fmt.Errorf("verif store: truncated block: %w", io.ErrUnexpectedEOF),
 	io.ErrUnexpectedEOF,
@@ -32,6 +32,7 @@ var extraErrKinds = []error{
 	context.Canceled,
 	traversal.SkipMe{},
 	fmt.Errorf("verif store: connection closed while reading block: %w", io.EOF),
+	io.EOF,
 }
 
 func errOfKind(kind int) error {
